@@ -56,9 +56,10 @@ minu64(const uint64_t a, const uint64_t b)
 static inline uint64_t
 digit2int(const char c)
 {
+    const char lc = (char)tolower((unsigned char)c);
     uint64_t rv = 0u;
     while (rv < 16) {
-        if (digits[rv] == c)
+        if (digits[rv] == lc)
             return rv;
         rv++;
     }
